@@ -596,6 +596,9 @@ def _first_call(e):
     on its first-evaluated spine"""
     if e is None or isinstance(e, (ast.Name, ast.Constant)):
         return None
+    if isinstance(e, ast.Call) and isinstance(e.func, ast.Name) and e.func.id in ('float', 'int', 'bool', 'str', 'len', 'abs', 'type', 'isinstance') \
+            and not e.keywords and all(_atomic(a) for a in e.args):
+        return None                           # a conversion / query of a plain name leaves nothing behind: not the "first call"
     if isinstance(e, ast.Call):
         if isinstance(e.func, ast.Attribute):
             r = _first_call(e.func.value)
@@ -1633,6 +1636,88 @@ def inline_derived_fields(trees, base, log):
         ast.fix_missing_locations(t)
 
 
+def fold_self_class_constants(trees, base, log):
+    """`self.X` read in a method of class C where X is a *new* constant of C's own body (a literal, a tuple of names / literals, the name of
+    a class) that nothing assigns through an object and no subclass of C re-binds is that constant; `isinstance(v, (T,))` is
+    `isinstance(v, T)`."""
+    bases = {}
+    classes = {}
+    for mname, tree in trees.items():
+        for c in tree.body:
+            if isinstance(c, ast.ClassDef):
+                bases[c.name] = [b.id if isinstance(b, ast.Name) else getattr(b, 'attr', None) for b in c.bases]
+                classes[c.name] = (mname, c)
+
+    def descendants(name):
+        out = set()
+        for c, bs in bases.items():
+            stack, seen = list(bs), set()
+            while stack:
+                b = stack.pop()
+                if b is None or b in seen:
+                    continue
+                seen.add(b)
+                if b == name:
+                    out.add(c)
+                    break
+                stack.extend(bases.get(b, []))
+        return out
+
+    def const_value_ok(v):
+        if isinstance(v, ast.Constant):
+            return True
+        if isinstance(v, ast.Name):
+            return v.id[:1].isupper() or v.id in ('int', 'float', 'str', 'bool', 'object', 'tuple', 'list', 'dict')
+        if isinstance(v, ast.Tuple):
+            return all(const_value_ok(e) for e in v.elts)
+        if isinstance(v, ast.Attribute):
+            return const_value_ok(v.value)
+        return False
+    stored = set()
+    for tree in trees.values():
+        for x in ast.walk(tree):
+            if isinstance(x, ast.Attribute) and isinstance(x.ctx, (ast.Store, ast.Del)):
+                stored.add(x.attr)
+    count = 0
+    for cname, (mname, c) in classes.items():
+        known = set(base.get(mname, {}).get('classes', {}).get(cname, {}).get('consts', ()))
+        consts = {}
+        for st in c.body:
+            if isinstance(st, (ast.Assign, ast.AnnAssign)):
+                n_, v_ = _single_name_assign(st)
+                if n_ is not None and n_ not in known and n_.startswith('_') and n_ not in stored and const_value_ok(v_):
+                    consts.setdefault(n_, []).append(v_)
+        consts = {k: v[0] for k, v in consts.items() if len(v) == 1}
+        if not consts:
+            continue
+        desc = descendants(cname)
+        for k in list(consts):
+            if any(any(isinstance(st, (ast.Assign, ast.AnnAssign)) and _single_name_assign(st)[0] == k for st in classes[d][1].body) for d in desc):
+                del consts[k]                      # a subclass re-binds it: objects of that subclass read another value in the inherited method
+        if not consts:
+            continue
+        rep = _ReplaceLoads(lambda node, consts=consts: consts[node.attr] if isinstance(node, ast.Attribute) and node.attr in consts
+                            and isinstance(node.value, ast.Name) and node.value.id == 'self' else None)
+        for m in c.body:
+            if isinstance(m, ast.FunctionDef):
+                for i_, s_ in enumerate(m.body):
+                    m.body[i_] = rep.visit(s_)
+        count += rep.count
+
+    class OneTuple(ast.NodeTransformer):
+        def visit_Call(self, node):
+            self.generic_visit(node)
+            if isinstance(node.func, ast.Name) and node.func.id == 'isinstance' and len(node.args) == 2 and isinstance(node.args[1], ast.Tuple) \
+                    and len(node.args[1].elts) == 1:
+                node.args[1] = node.args[1].elts[0]
+            return node
+    if count:
+        for t in trees.values():
+            OneTuple().visit(t)
+            ast.fix_missing_locations(t)
+        log.append(f'N1 {count} read(s) of a new class constant through self replaced by the constant')
+
+
 def inline_generators(trees, base, log):
     """`for T in self.g(..): BODY` with g a new generator of the shape  <prefix>; <one loop whose body ends with the only `yield v`
     and otherwise leaves only through bare `return`>  becomes that loop with `T = v; BODY` in place of the yield and `break` in
@@ -1776,6 +1861,42 @@ def inline_helpers(trees, base, log):
         subclasses.setdefault(c, set()).add(c)
         for a in ancestors(c):
             subclasses.setdefault(a, set()).add(c)
+    # new helpers of the same name in unrelated classes (`_si_of` in Quantity and in SI): told apart by a class suffix when every use is
+    # `self.<name>` inside a class that has exactly one of the definitions among its ancestors
+    for name, ds in list(defs.items()):
+        if len(ds) < 2 or any(cls is None for (_m, cls, _f) in ds):
+            continue
+        if any(cls in base.get(mn, {}).get('classes', {}) and name in base[mn]['classes'][cls]['methods'] for (mn, cls, _f) in ds):
+            continue
+        owners = {cls for (_m, cls, _f) in ds}
+        if len(owners) != len(ds) or any((ancestors(c) & owners) for c in owners):
+            continue
+        plan = []
+        okn = True
+        for mn, tree in trees.items():
+            for n in tree.body:
+                if isinstance(n, ast.ClassDef):
+                    mine = ({n.name} | ancestors(n.name)) & owners
+                    for x in ast.walk(n):
+                        if isinstance(x, ast.Attribute) and x.attr == name:
+                            if len(mine) == 1 and isinstance(x.value, ast.Name) and x.value.id == 'self':
+                                plan.append((x, next(iter(mine))))
+                            else:
+                                okn = False
+                        elif isinstance(x, ast.Constant) and x.value == name:
+                            okn = False
+                else:
+                    for x in ast.walk(n):
+                        if (isinstance(x, ast.Attribute) and x.attr == name) or (isinstance(x, ast.Name) and x.id == name):
+                            okn = False
+        if not okn:
+            continue
+        for (x, owner) in plan:
+            x.attr = f'{name}__{owner}'
+        del defs[name]
+        for (mn, cls, fn) in ds:
+            fn.name = f'{name}__{cls}'
+            defs[fn.name] = [(mn, cls, fn)]
     helpers = {}
     for name, ds in defs.items():
         if len(ds) != 1:
@@ -2995,6 +3116,8 @@ def run(trees, baseline=None):
     OBSERVERS.update(observer_methods(trees))
     strip_noops(trees, base, log)
     defaults_into_init(trees, base, log)
+    from .consteval import fold_table_helpers
+    fold_table_helpers(trees, base, log)
     fold_constants(trees, base, log)
     NON_NONE_CLASS_CONSTANTS.clear()
     for t in trees.values():
@@ -3016,6 +3139,7 @@ def run(trees, baseline=None):
         if any(isinstance(x, ast.Call) and ((isinstance(x.func, ast.Name) and x.func.id == 'getattr') or isinstance(x.func, ast.Lambda)
                                            or any(isinstance(a, ast.Starred) for a in x.args)) for x in ast.walk(t)):
             _BetaReduce().visit(t)
+    fold_self_class_constants(trees, base, log)
     inline_derived_fields(trees, base, log)
     propagate_locals(trees, base, log)
     strip_noops(trees, base, log)                 # conversions exposed by the propagation
